@@ -856,11 +856,12 @@ def _sub_exponent(sh, case):
                 if not _cclose(cf, cref, rtol * max(1.0, t * abs(ref)) * 4):
                     sh.violation(f"C10:exponent:{type(model).__name__}.characteristic_function:not-exp-of-t-times-exponent:{kl}",
                                  f"{spec}: characteristic_function({t}, {_ulabel(u)}) = {cf}, exp(t psi) = {cref}", None)
-    # u = 0 (tie): psi(0) = 0 whatever the triplet
+    # u = 0 (tie): psi(0) = 0 whatever the triplet. The closed forms subtract terms like c Gamma(-y) m^y (1.6e3 for c = 2,
+    # y = 1.8, m = 15: 1.8e-13 left over), so the slack is 1e-10 of the exponent's size on the argument list, not ATOL
     try:
         z0 = complex(model.levy_exponent(0.0))
         sh.count("evaluations")
-        if not abs(z0) <= ATOL:
+        if not abs(z0) <= 1e-10 * max([1.0] + [abs(r["lib"]) for r in rows]):
             sh.violation(f"C10:exponent:{comp}:not-zero-at-zero:{kl}", f"{A.model_label(spec)}: levy_exponent(0.0) = {z0}", None)
     except Exception as e:
         sh.violation(f"C10:exponent:{comp}:raises-{type(e).__name__}:{kl}:u=0", f"levy_exponent(0.0) raised {e!r}", None)
@@ -1174,7 +1175,7 @@ def _exponent_exp(sh, case):
     try:
         one = complex(model.log_characteristic_function(1.0, 0.0))
         sh.count("evaluations")
-        if not abs(one - 1.0) <= 1e-12:
+        if not abs(one - 1.0) <= 1e-10:  # same cancellation as psi(0) above
             sh.violation(f"C10:exponent:{comp}:not-one-at-zero:{kl}", f"{A.model_label(spec)}: log_characteristic_function(1, 0.0) = {one}", None)
     except Exception as e:
         sh.violation(f"C10:exponent:{comp}:raises-{type(e).__name__}:{kl}:u=0", f"log_characteristic_function(1, 0.0) raised {e!r}", None)
@@ -1553,8 +1554,9 @@ def _sub_mart_cf(sh, case):
                 sh.violation(f"C10:martingale-cf:{cname}.mean:not-the-forward-over-spot:{kl}",
                              f"{A.model_label(spec)}: mean({t}) = {mean}, exp((r-d)t) = {math.exp((r - d) * t)!r}", None)
     # -i handed over in its other forms; ONE complex grid kept by the caller for all the maturities (ascending, then descending)
-    grid = np.array([-1j, -1j, 0j])
-    for form, arg in (("numpy-scalar", np.complex128(-1j)), ("array-0-d", np.array(-1j)), ("array-kept", grid), ("keywords-array-kept", grid)):
+    for form, arg in (("numpy-scalar", np.complex128(-1j)), ("array-0-d", np.array(-1j)), ("array-kept", np.array([-1j, -1j, 0j])),
+                      ("keywords-array-kept", np.array([-1j, -1j, 0j]))):
+        is_grid = form.endswith("array-kept")
         for t in (0.25, 1.0, 2.0, 1.0, 0.25):
             fwd = s0 * math.exp((r - d) * t)
             try:
@@ -1568,14 +1570,15 @@ def _sub_mart_cf(sh, case):
                              f"log_characteristic_function({t}, {arg!r}) raised {e!r}", None)
                 break
             sh.count("evaluations")
-            ok = _cclose(vals[0], fwd, 1e-11) and (arg is not grid or (len(vals) == 3 and _cclose(vals[1], fwd, 1e-11)
-                                                                        and _cclose(vals[2], 1.0, 1e-11)))
-            if not ok or (arg is grid and grid.tolist() != [-1j, -1j, 0j]):
+            ok = _cclose(vals[0], fwd, 1e-11) and (not is_grid or (len(vals) == 3 and _cclose(vals[1], fwd, 1e-11)
+                                                                    and _cclose(vals[2], 1.0, 1e-10)))
+            changed = (is_grid and arg.tolist() != [-1j, -1j, 0j]) or (form == "array-0-d" and complex(arg) != -1j)
+            if not ok or changed:
+                fc = "not-the-forward-at-minus-i" if not ok else "modifies-its-argument"
                 sh.violation(
-                    f"C10:martingale-cf:{cname}.log_characteristic_function:not-the-forward-at-minus-i:{kl}:{form}",
+                    f"C10:martingale-cf:{cname}.log_characteristic_function:{fc}:{kl}:{form}",
                     f"{A.model_label(spec)}: log_characteristic_function({t}, .) with -i handed over as {form} = {vals}, forward = "
-                    f"{fwd!r}; the caller's grid holds {grid.tolist()}", {"t": t, "lib": vals, "forward": fwd})
-                grid = np.array([-1j, -1j, 0j])
+                    f"{fwd!r}; the caller's object now holds {np.asarray(arg).tolist()}", {"t": t, "lib": vals, "forward": fwd})
                 break
     # the same under the exact jump law: omega must be -psi(-i) of the declared triplet
     rtol = _rtol(fv)
